@@ -14,7 +14,7 @@ from pyvc import sym
 from pyvc.sym import lift
 from pyvc.oblig import obligation, verify, bounded, Goal, Inapplicable
 from pyvc.interp import PyRaise
-from .common import stable_rng, quick
+from .common import stable_rng, quick, num
 from pyvc.seq import SymSeq
 
 LEVEL = "proof"
@@ -225,6 +225,60 @@ def ob_history(L, shape):
     return merge([_history_one(L, shape, seq) for seq in _histories()])
 
 
+def _native_request_history(L, shape, seq, skips, Fd=40.0, Ts=1e-3, seed=5):
+    """the request history on a real generator: every block == closed form at (position)*Ts with the generator's own phases, blocks
+    handed out earlier keep their values.  skips: the skip counts (head start first).  -> first disagreement or None"""
+    import pyphysim.channels.fading_generators as fg
+    g = fg.JakesSampleGenerator(Fd, Ts, L, shape, np.random.RandomState(seed))
+    phi, psi = g._phi_l.copy(), g._psi_l.copy()
+    shp = () if shape is None else ((shape,) if isinstance(shape, int) else tuple(shape))
+    skips = list(skips)
+    pos = 1
+    m0 = skips.pop(0) if skips else 0
+    g.skip_samples_for_next_generation(m0)
+    pos += m0
+    kept = []
+    done = ["skip(%d)" % m0]
+    for (op, n) in seq:
+        if op == "skip":
+            m = skips.pop(0) if skips else 3
+            g.skip_samples_for_next_generation(m)
+            pos += m
+            done.append("skip(%d)" % m)
+            continue
+        g.generate_more_samples(n)
+        h = g.get_samples()
+        done.append("generate(%d)" % n)
+        where = {"confirmed": True, "history": " ".join(done), "L": L, "shape": repr(shape), "Fd": Fd, "Ts": Ts}
+        if h.shape != shp + (n,):
+            return dict(where, observed_shape=list(h.shape), expected_shape=list(shp + (n,)))
+        k = pos + np.arange(n)
+        ref = _model(phi, psi, Fd, L, (k * Ts).reshape((1,) * (len(shp) + 1) + (n,)))
+        if (not (np.abs(h - ref).max() <= 1e-9)):
+            return dict(where, first_position=int(pos), max_abs_error_vs_model=float(np.abs(h - ref).max()))
+        for (blk, snap, at) in kept:
+            if blk is not h and (blk.shape != snap.shape or not np.array_equal(blk, snap)):
+                return dict(where, overwritten_block_from_position=int(at))
+        kept.append((h, h.copy(), pos))
+        pos += n
+    return None
+
+
+def _replay_request_history(L, shape, seq):
+    def rp(model):
+        try:
+            names = ["m0"] + ["m%d_%s" % (j, ">".join("%s%s" % (a, b or "") for a, b in seq) or "init") for j, (op, n) in enumerate(seq) if op == "skip"]
+            from_model = [max(0, int(num(model.get(nm), 0))) for nm in names] if isinstance(model, dict) else []
+            for skips in ([from_model] if any(from_model) else []) + [[0] * len(names), [3, 5, 2, 7][:len(names)], [2 ** 20 + 1, 17, 4, 9][:len(names)]]:
+                bad = _native_request_history(L, shape, seq, skips)
+                if bad:
+                    return bad
+            return {"confirmed": False, "note": "real generator follows the model along this request history for generic parameters"}
+        except Exception as e:
+            return {"confirmed": False, "error": "replay crashed: %r" % (e,)}
+    return rp
+
+
 def _history_one(L, shape, seq):
     def body(c, it):
         goals = []
@@ -236,6 +290,7 @@ def _history_one(L, shape, seq):
             pos = 1                                  # the constructor generates one sample
             m0 = c.var("m0", "int")
             c.assume(m0 >= 0)
+            c.inputs["m0"] = m0
             it.call(it.getattr(o, "skip_samples_for_next_generation"), [m0])
             pos = pos + m0
             tag = ">".join("%s%s" % (a, b or "") for a, b in seq) or "init"
@@ -245,6 +300,7 @@ def _history_one(L, shape, seq):
                 if op == "skip":
                     m = c.var("m%d_%s" % (j, tag), "int")
                     c.assume(m >= 0)
+                    c.inputs["m%d_%s" % (j, tag)] = m
                     it.call(it.getattr(o, "skip_samples_for_next_generation"), [m])
                     pos = pos + m
                     continue
@@ -269,7 +325,7 @@ def _history_one(L, shape, seq):
                 kept.append((h, np.array(h, dtype=object, copy=True), j))
                 pos = pos + n
         return goals
-    return verify(body, check_side=False, timeout_ms=120000)
+    return verify(body, check_side=False, timeout_ms=120000, replay=_replay_request_history(L, shape, seq))
 
 
 @obligation("lemma/unit_vector_sum_bound_small_L", kind="lemma", params=[{"L": L} for L in (1, 2)],
